@@ -355,11 +355,22 @@ class Gen:
             return ("bin", "add", self.int_expr(env, d - 1), self.str_expr(env, d - 1))
         if c < 0.78:
             return ("bin", "add", self.str_expr(env, d - 1), self.chr_expr(env))
-        if c < 0.86 and env["A"] and "arrays" in self.f:
+        if c < 0.86 and env["A"] and "arrays" in self.f and not env.get("nogrow"):
             return ("index", self.arr_expr(env), self.key_expr(env, KEY_STR[0]))
-        if c < 0.92 and "threads" in self.f and self.callees(env, "S"):
+        if c < 0.92 and "threads" in self.f and self.callees(env, "S") and not env.get("nogrow"):
             return self.call_expr(env, d, "S")
         return self.str_expr(env, d - 1)
+
+    def str_rhs(self, env, target, d):
+        """right-hand side for an assignment to a string cell: literals, constants and integer parts, plus at
+        most one occurrence of the target itself, so that strings grow linearly (not exponentially) in loops"""
+        e2 = dict(env)
+        e2["S"] = list(env.get("Sk", []))
+        e2["nogrow"] = True
+        rhs = self.str_expr(e2, d)
+        if target is not None and self.chance(0.5):
+            rhs = ("bin", "add", target, rhs) if self.chance(0.6) else ("bin", "add", rhs, target)
+        return rhs
 
     def chr_expr(self, env):
         s = self.rng.choice([x for x in STRS if x and all(32 <= ord(c) < 127 for c in x)])
@@ -515,9 +526,9 @@ class Gen:
             v = r.choice(env["Sw"])
             lv = ("var", v[1], v[2])
             if self.chance(0.3):
-                rhs = self.str_expr(env, 1) if self.chance(0.6) else self.int_expr(env, 1)
+                rhs = self.str_rhs(env, None, 1) if self.chance(0.6) else self.int_expr(env, 1)
                 return [("opassign", "add", lv, rhs)]
-            return [("assign", lv, self.str_expr(env, D))]
+            return [("assign", lv, self.str_rhs(env, v, D))]
         if c < 0.6 and env["Xw"]:
             v = r.choice(env["Xw"])
             lv = ("var", v[1], v[2])
@@ -537,7 +548,7 @@ class Gen:
                     return [(r.choice(["incr", "decr"]), lv)]
                 return [("assign", lv, self.int_expr(env, D))]
             if c2 < 0.5:
-                return [("assign", self.arr_lval(env, KEY_STR), self.str_expr(env, D))]
+                return [("assign", self.arr_lval(env, KEY_STR), self.str_rhs(env, None, D))]
             if c2 < 0.75:
                 lv = self.arr_lval(env, KEY_ANY)
                 rhs = ("nil",) if self.chance(0.3) else self.any_expr(env, D)
@@ -579,7 +590,7 @@ class Gen:
             th = r.choice(self.callees(env, "N"))
             self.cost += th.cost * self.mult
             return [("scall", self.call_kind(env, th), th.name, self.call_args(env, th, 2))]
-        if c < 0.97 and env["can_end"]:
+        if c < 0.97 and env["can_end"] and nest >= 2:
             e = None
             if env["ret"] == "I":
                 e = self.int_expr(env, 2)
@@ -738,6 +749,7 @@ class Gen:
             "Iw": locs_i + gi + grp_i,
             "S": locs_s + gs + [c[0] for c in consts if c[1][0] == "str"],
             "Sw": locs_s + gs,
+            "Sk": [c[0] for c in consts if c[1][0] == "str"],
             "A": [], "Aw": [],
             "X": locs_x + [("var", "group", "gx1"), ("var", "level", "lx1"), ("var", "parm", "px1")],
             "Xw": locs_x + [("var", "group", "gx1"), ("var", "level", "lx1"), ("var", "parm", "px1")],
